@@ -136,7 +136,7 @@ def _ob_feature_data(ii: int) -> bool:
 # ---------------------------------------------------------------------------
 # 2. dimension link index rules, all integer vectors      PART = (dim kind, length)
 # ---------------------------------------------------------------------------
-def _ob_dim_link(i0: int, i1: int, i2: int, target: int) -> bool:
+def _ob_dim_link(i0: int, i1: int, i2: int, target: int, own_unit: bool, tgt_unit: bool) -> bool:
     """
     pre: 0 <= target < 2
     post: __return__
@@ -145,11 +145,16 @@ def _ob_dim_link(i0: int, i1: int, i2: int, target: int) -> bool:
     dkind, n = PART
     E = _fixture()
     host = E["b1.vec"]
-    dim = host.append_range_dimension([7.0, 8.0]) if dkind == "range" else host.append_set_dimension(["q", "r"])
+    if dkind == "range":
+        # history: the dimension may have had its own unit / label before it was linked
+        dim = host.append_range_dimension([7.0, 8.0], label="own" if own_unit else None,
+                                          unit="ms" if own_unit else None)
+    else:
+        dim = host.append_set_dimension(["q", "r"])
     tgt = _pick([E["b1.da"], E["b1.vec"]], target)        # rank 2 / rank 1
     rank = 2 if target == 0 else 1
-    tgt.unit = "mV"
-    tgt.label = "lbl"
+    tgt.unit = "mV" if tgt_unit else None
+    tgt.label = "lbl" if tgt_unit else None
     index = [i0, i1, i2][:n]
     minus = sum(1 for v in index if v == -1)
     neg = sum(1 for v in index if v < 0)
@@ -195,7 +200,8 @@ def _ob_dim_link(i0: int, i1: int, i2: int, target: int) -> bool:
     if tuple(float(v) for v in vals) != want:
         return False
     if dkind == "range":
-        if dim.unit != "mV" or dim.label != "lbl":
+        # unit and label are the linked array's CURRENT ones (also when it has none)
+        if dim.unit != ("mV" if tgt_unit else None) or dim.label != ("lbl" if tgt_unit else None):
             return False
         # the link is live: a change of the array is a change of the ticks' unit
         tgt.unit = "kV"
